@@ -514,3 +514,50 @@ func sigOfBody(fn *FuncInfo, body *ast.BlockStmt) *types.Signature {
 	})
 	return sig
 }
+
+// guardedFailure: the return hands back an error that is known to be non-nil there — a fresh
+// error value, or the variable tested by the enclosing `if v != nil`. A trailing `return err`
+// that forwards the last call's result is not one (it reports success when that call succeeded).
+func guardedFailure(fn *FuncInfo, sig *types.Signature, ret *ast.ReturnStmt) bool {
+	info := fn.Info()
+	ei := errResultIndex(sig)
+	if ei < 0 || len(ret.Results) != sig.Results().Len() {
+		return false
+	}
+	x := ast.Unparen(ret.Results[ei])
+	if info.Types[x].IsNil() {
+		return false
+	}
+	if nonNilProducer(info, x) {
+		return true
+	}
+	if u, ok := x.(*ast.UnaryExpr); ok && u.Op == token.AND {
+		if _, isLit := ast.Unparen(u.X).(*ast.CompositeLit); isLit {
+			return true // &SomeError{…}
+		}
+	}
+	if _, isLit := x.(*ast.CompositeLit); isLit {
+		return true
+	}
+	o := identObj(info, x)
+	if o == nil {
+		return false
+	}
+	for _, n := range pathTo(fn.Decl.Body, ret) {
+		is, ok := n.(*ast.IfStmt)
+		if !ok || !(is.Body.Pos() <= ret.Pos() && ret.End() <= is.Body.End()) {
+			continue
+		}
+		found := false
+		ast.Inspect(is.Cond, func(k ast.Node) bool {
+			if be, ok := k.(*ast.BinaryExpr); ok && be.Op == token.NEQ && identObj(info, be.X) == o && info.Types[ast.Unparen(be.Y)].IsNil() {
+				found = true
+			}
+			return true
+		})
+		if found {
+			return true
+		}
+	}
+	return false
+}
